@@ -1040,7 +1040,23 @@ func (a bidiSrv) SetHeader(md metadata.MD) error  { return a.s.SetHeader(md) }
 func (a bidiSrv) SendHeader(md metadata.MD) error { return a.s.SendHeader(md) }
 func (a bidiSrv) SetTrailer(md metadata.MD)       { a.s.SetTrailer(md) }
 
+// readerMode makes the bidi handler (for calls without a scenario id) start a reader goroutine of its own, answer
+// once and return while that goroutine is still waiting in Recv: when the call is over the pending Recv has to end.
+var readerMode atomic.Bool
+var readerEnded atomic.Int64
+
 func (s *scriptServer) BidiStream(st grpc.BidiStreamingServer[testproto.BidiStreamRequest, testproto.BidiStreamResponse]) error {
+	if readerMode.Load() && lookup(st.Context()) == nil {
+		go func() {
+			for {
+				if _, err := st.Recv(); err != nil {
+					readerEnded.Add(1)
+					return
+				}
+			}
+		}()
+		return st.Send(&testproto.BidiStreamResponse{Msg: "bye"})
+	}
 	_, err := serve(bidiSrv{st}, "", false)
 	return err
 }
